@@ -321,3 +321,129 @@ pub struct HyraxStateMirror<F: PrimeField> {
     pub m: usize,
     pub entries: Vec<Vec<F>>,
 }
+
+// ---------------------------------------------------------------------------------------------
+// Single-element replacements of commitments and verifier keys (C10 neighbourhood).
+
+use ark_poly_commit::{hyrax::{HyraxCommitment, HyraxVerifierKey}, marlin_pc, sonic_pc};
+
+fn g2<E: Pairing>(seed: u64, k: u64) -> E::G2Affine {
+    E::G2::rand(&mut stream(seed, "surgery-g2", k)).into_affine()
+}
+
+pub fn marlin_comm_variants<E: Pairing>(c: &marlin_pc::Commitment<E>, seed: u64) -> Vec<(String, marlin_pc::Commitment<E>)> {
+    let mut out = vec![("comm-replaced".to_string(), marlin_pc::Commitment { comm: kzg10::Commitment(g1::<E>(seed, 1000)), shifted_comm: c.shifted_comm })];
+    if c.shifted_comm.is_some() {
+        out.push(("shifted_comm-replaced".to_string(), marlin_pc::Commitment { comm: c.comm, shifted_comm: Some(kzg10::Commitment(g1::<E>(seed, 1001))) }));
+    }
+    out
+}
+pub fn sonic_comm_variants<E: Pairing>(_c: &kzg10::Commitment<E>, seed: u64) -> Vec<(String, kzg10::Commitment<E>)> {
+    vec![("comm-replaced".to_string(), kzg10::Commitment(g1::<E>(seed, 1002)))]
+}
+pub fn ipa_comm_variants<G: AffineRepr>(c: &ipa_pc::Commitment<G>, seed: u64) -> Vec<(String, ipa_pc::Commitment<G>)> {
+    let mut out = vec![("comm-replaced".to_string(), ipa_pc::Commitment { comm: grp::<G>(seed, 1003), shifted_comm: c.shifted_comm })];
+    if c.shifted_comm.is_some() {
+        out.push(("shifted_comm-replaced".to_string(), ipa_pc::Commitment { comm: c.comm, shifted_comm: Some(grp::<G>(seed, 1004)) }));
+    }
+    out
+}
+pub fn hyrax_comm_variants<G: AffineRepr>(c: &HyraxCommitment<G>, seed: u64) -> Vec<(String, HyraxCommitment<G>)> {
+    let mut out = vec![];
+    let n = c.row_coms.len();
+    for i in [0usize, n.saturating_sub(1)] {
+        if i < n {
+            let mut q = c.clone();
+            q.row_coms[i] = grp::<G>(seed, 1010 + i as u64);
+            out.push((format!("row_com[{}]-replaced", if i == 0 { "0" } else { "last" }), q));
+        }
+    }
+    out
+}
+pub fn lincode_comm_variants<C: Config, T: CanonicalSerialize + CanonicalDeserialize>(c: &T, seed: u64) -> Vec<(String, T)>
+where
+    C::InnerDigest: CanonicalSerialize + CanonicalDeserialize,
+{
+    // the root is a digest: flip it by re-deserializing random bytes of the same length
+    let Some(m): Option<LcCommMirror<C>> = to_mirror(c) else { return vec![] };
+    let mut rb = vec![];
+    if m.root.serialize_compressed(&mut rb).is_err() {
+        return vec![];
+    }
+    let mut r = stream(seed, "surgery-root", 0);
+    // keep the length prefix / structure, change the payload bytes
+    let n = rb.len();
+    for b in rb.iter_mut().skip(n.saturating_sub(32)) {
+        *b = r.gen();
+    }
+    let Ok(root) = C::InnerDigest::deserialize_compressed(&rb[..]) else { return vec![] };
+    let m2 = LcCommMirror::<C> { n_rows: m.n_rows, n_cols: m.n_cols, n_ext_cols: m.n_ext_cols, root };
+    to_mirror::<_, T>(&m2).map(|t| vec![("root-replaced".to_string(), t)]).unwrap_or_default()
+}
+
+pub fn marlin_vk_variants<E: Pairing>(vk: &marlin_pc::VerifierKey<E>, seed: u64) -> Vec<(String, marlin_pc::VerifierKey<E>)> {
+    let mut out = vec![];
+    let mut q = vk.clone(); q.vk.g = g1::<E>(seed, 1100); out.push(("vk.g-replaced".to_string(), q));
+    let mut q = vk.clone(); q.vk.gamma_g = g1::<E>(seed, 1101); out.push(("vk.gamma_g-replaced".to_string(), q));
+    let mut q = vk.clone(); q.vk.h = g2::<E>(seed, 1102); q.vk.prepared_h = q.vk.h.into(); out.push(("vk.h-replaced".to_string(), q));
+    let mut q = vk.clone(); q.vk.beta_h = g2::<E>(seed, 1103); q.vk.prepared_beta_h = q.vk.beta_h.into(); out.push(("vk.beta_h-replaced".to_string(), q));
+    if let Some(l) = &vk.degree_bounds_and_shift_powers {
+        for i in 0..l.len().min(2) {
+            let mut q = vk.clone();
+            q.degree_bounds_and_shift_powers.as_mut().unwrap()[i].1 = g1::<E>(seed, 1110 + i as u64);
+            out.push(("vk.shift_power-replaced".to_string(), q));
+        }
+    }
+    out
+}
+pub fn sonic_vk_variants<E: Pairing>(vk: &sonic_pc::VerifierKey<E>, seed: u64) -> Vec<(String, sonic_pc::VerifierKey<E>)> {
+    let mut out = vec![];
+    let mut q = vk.clone(); q.g = g1::<E>(seed, 1200); out.push(("vk.g-replaced".to_string(), q));
+    let mut q = vk.clone(); q.gamma_g = g1::<E>(seed, 1201); out.push(("vk.gamma_g-replaced".to_string(), q));
+    let mut q = vk.clone(); q.h = g2::<E>(seed, 1202); q.prepared_h = q.h.into(); out.push(("vk.h-replaced".to_string(), q));
+    let mut q = vk.clone(); q.beta_h = g2::<E>(seed, 1203); q.prepared_beta_h = q.beta_h.into(); out.push(("vk.beta_h-replaced".to_string(), q));
+    if let Some(l) = &vk.degree_bounds_and_neg_powers_of_h {
+        for i in 0..l.len().min(2) {
+            let mut q = vk.clone();
+            q.degree_bounds_and_neg_powers_of_h.as_mut().unwrap()[i].1 = g2::<E>(seed, 1210 + i as u64);
+            out.push(("vk.neg_power_of_h-replaced".to_string(), q));
+        }
+    }
+    out
+}
+pub fn pst13_vk_variants<E: Pairing>(vk: &marlin_pst13_pc::VerifierKey<E>, seed: u64) -> Vec<(String, marlin_pst13_pc::VerifierKey<E>)> {
+    let mut out = vec![];
+    let mut q = vk.clone(); q.g = g1::<E>(seed, 1300); out.push(("vk.g-replaced".to_string(), q));
+    let mut q = vk.clone(); q.gamma_g = g1::<E>(seed, 1301); out.push(("vk.gamma_g-replaced".to_string(), q));
+    let mut q = vk.clone(); q.h = g2::<E>(seed, 1302); q.prepared_h = q.h.into(); out.push(("vk.h-replaced".to_string(), q));
+    for j in 0..vk.beta_h.len().min(3) {
+        let mut q = vk.clone();
+        q.beta_h[j] = g2::<E>(seed, 1310 + j as u64);
+        q.prepared_beta_h[j] = q.beta_h[j].into();
+        out.push(("vk.beta_h[j]-replaced".to_string(), q));
+    }
+    out
+}
+pub fn ipa_vk_variants<G: AffineRepr>(vk: &ipa_pc::VerifierKey<G>, seed: u64) -> Vec<(String, ipa_pc::VerifierKey<G>)> {
+    let mut out = vec![];
+    let n = vk.comm_key.len();
+    for i in [0usize, n / 2, n - 1] {
+        let mut q = vk.clone();
+        q.comm_key[i] = grp::<G>(seed, 1400 + i as u64);
+        out.push(("vk.comm_key[i]-replaced".to_string(), q));
+    }
+    let mut q = vk.clone(); q.h = grp::<G>(seed, 1450); out.push(("vk.h-replaced".to_string(), q));
+    let mut q = vk.clone(); q.s = grp::<G>(seed, 1451); out.push(("vk.s-replaced".to_string(), q));
+    out
+}
+pub fn hyrax_vk_variants<G: AffineRepr>(vk: &HyraxVerifierKey<G>, seed: u64) -> Vec<(String, HyraxVerifierKey<G>)> {
+    let mut out = vec![];
+    let n = vk.com_key.len();
+    for i in [0usize, n - 1] {
+        let mut q = vk.clone();
+        q.com_key[i] = grp::<G>(seed, 1500 + i as u64);
+        out.push(("vk.com_key[i]-replaced".to_string(), q));
+    }
+    let mut q = vk.clone(); q.h = grp::<G>(seed, 1550); out.push(("vk.h-replaced".to_string(), q));
+    out
+}
